@@ -191,27 +191,8 @@ def check(rep, F, tier, replay=None):
             rep.lost("field %s.%s not found" % (e["adt"], e["field"]))
         elif not ty.startswith("std::collections::" + e["class"] + "<"):
             rep.violation("CANON", "%s.%s" % (e["adt"], e["field"]), "%s.%s is a %s, not a %s: %s no longer holds whatever the insertion order" % (e["adt"], e["field"], ty.split("<")[0], e["class"], e["why"]), {})
-    fid = find_fn(rep, F, "<AssetName as std::cmp::Ord>::cmp")
-    if fid:
-        rep.inst("CANON")
-        hir = F.hir[fid]
-        ok = False
-        for n in H.walk(hir["body"]):
-            if n[0] == "match":
-                sc = H.strip(n[2])
-                if H.is_node(sc) and sc[0] == "mcall" and sc[2] == "cmp" and (H.path_str(sc[4]) or "").endswith(".len()") and (H.path_str(sc[5][0]) or "").endswith(".len()"):
-                    for pat, g, body in n[3]:
-                        if (H.pat_variant(pat) or "").endswith("Equal"):
-                            b = H.strip(body)
-                            if H.is_node(b) and b[0] == "mcall" and b[2] == "cmp" and H.path_str(b[4]) == "self.0":
-                                ok = True
-        if not ok:
-            rep.violation("CANON", "AssetName::cmp", "AssetName's Ord no longer compares lengths first and contents only on equal length (canonical CBOR key order)", {})
-    fidp = find_fn(rep, F, "<AssetName as std::cmp::PartialOrd>::partial_cmp")
-    if fidp:
-        rep.inst("CANON")
-        if not any((c.to or "").endswith("AssetName as std::cmp::Ord>::cmp") or F.key(c.to or "") == "<AssetName as std::cmp::Ord>::cmp" for c in F.calls(fidp)):
-            rep.violation("CANON", "AssetName::partial_cmp", "AssetName's PartialOrd does not delegate to its Ord", {})
+    from ruleutil import assetname_ord_rule
+    assetname_ord_rule(rep, F, "CANON")
     # HASH-leak
     rep.rule("HASH-leak", "iterations over std RandomState hash containers reachable from the build / size / fee entry points, or inside CBOR writers, are on the audited order-insensitive list")
     G = CallGraph(F)
